@@ -9,15 +9,24 @@
   * `x86_operand_list_parse_back` — the `, `-separated operand list after the mnemonic: cutting at the commas and reading every chunk
     gives the chunks' readings in order (induction over the operand list).
 
-  NOT proved: the final assembly into one statement `x86_line_parse_back` (head + mnemonic + operand list + the trailing
-  `{er}/{sae}` group: `readChunks_round` handles the group in the chunk walk, the model-side rounding text lemma and the per-kind
-  `OpOK` instances for the chunk hypothesis are missing), and the AArch64 line. Both remain monitored on every line of every run.
+  * `x86_line_parse_back` — THE WHOLE LINE: for every well-formed instruction (`WFLine`: valid id, operands that are registers /
+    immediates / labels / memory operands of the proved kinds — `reg_operand_ok`, `imm_operand_ok`, `label_operand_ok`,
+    `mem_operand_ok` — broadcast 0..6, readable mask / rep register, a rounding option only with operands) and every flag
+    combination, `parseX86Inst (x86FormatInstruction …)` returns exactly: the option words `expectedPrefixes options`, the rep
+    register, the mnemonic text of the id (tied to the id by `inst_names_match_headers` / `alias_names_denote_same_instruction`),
+    the operand readings in order — each agreeing with the operand given (`x86_line_operands_agree`) with mask register, zeroing
+    flag and broadcast factor — and the rounding group `expectedRounding options`.
+
+  NOT proved: the AArch64 line (its reader still cuts operands with bracket-depth tracking; memory and register-list texts contain
+  `, `), and the last hop from this structured result to the Boolean `monInstruction … = true` (needs the id-indexed form of the
+  name-table theorems). Both remain evaluated by the monitor on every line of every run.
 -/
-import AsmjitVerif.Lemmas.FormatLineParts
+import AsmjitVerif.Lemmas.FormatLineFull
 
 namespace AsmjitVerif.Props.C20
 open AsmjitVerif.Format AsmjitVerif.FormatText AsmjitVerif.Lemmas.FormatX86Mem
 open AsmjitVerif.Lemmas.FormatLine AsmjitVerif.Lemmas.FormatChunk AsmjitVerif.Lemmas.FormatLineParts
+open AsmjitVerif.Lemmas.FormatOpKinds AsmjitVerif.Lemmas.FormatLineFull
 
 theorem x86_prefix_words_parse_back (flags : Nat) (env : Env) (options : Nat) (extra : ExtraReg)
     (hrw : extra.isReg = true → isFixed (repWord flags env extra) = false) :
@@ -45,7 +54,81 @@ theorem x86_operand_list_parse_back (flags : Nat) (env : Env) (options : Nat) (e
         some (ex 0 op :: (tailCPs (x86ChunkText flags env options extra) ex 1 rest).map Prod.snd, none) :=
   ops_read flags env options extra op rest ex hne hch
 
+/-! ## the whole line -/
+
+theorem reg_operand_ok (flags : Nat) (env : Env) (t id : Nat) (h : RegOK env (x86FormatRegister flags env t id) t id) :
+    OpOK flags env (.reg t id 0 none) := reg_opOK flags env t id h
+theorem imm_operand_ok (flags : Nat) (env : Env) (u : Nat) (h : u < two64) : OpOK flags env (.imm u 0) := imm_opOK flags env u h
+theorem label_operand_ok (flags : Nat) (env : Env) (id : Nat) (h : LabelOK env id) : OpOK flags env (.label id) := label_opOK flags env id h
+theorem mem_operand_ok (flags : Nat) (env : Env) (m : X86Mem) (wf : WFX86Mem flags env m) : OpOK flags env (.x86mem m) :=
+  mem_opOK flags env m wf
+
+/-- whole-line parse-back for x86 -/
+theorem x86_line_parse_back (flags : Nat) (env : Env) (instId options : Nat) (extra : ExtraReg) (ops : List Operand) (rk rr : PReg)
+    (wf : WFLine flags env instId options extra ops rk rr) :
+    parseX86Inst env (x86FormatInstruction flags env instId options extra ops) =
+      some { prefixes := expectedPrefixes options,
+             repReg := if hasBit options (ioRep ||| ioRepne) = true ∧ extra.isReg = true then some rr else none,
+             mnemonic := (parseMnemonic (x86InstName flags instId)).1, aliases := (parseMnemonic (x86InstName flags instId)).2,
+             ops := exList flags env options extra rk ops, rounding := expectedRounding options } :=
+  x86_line_read flags env instId options extra ops rk rr wf
+
+/-- every operand reading in that result agrees with the operand that was given -/
+theorem x86_line_operands_agree (flags : Nat) (env : Env) (options : Nat) (extra : ExtraReg) (rk : PReg) (k : Nat) (o : Operand)
+    (h : OpOK flags env o) : opAgrees env o (exOf flags env options extra rk k o).op = true := h.eq.2
+
 /-! non-vacuity -/
+
+def envL : Env := { arch := .x64, labels := some [], vregs := none }
+def opsL : List Operand :=
+  [.reg 13 0 0 none, .reg 13 1 0 none,
+   .x86mem { size := 4, seg := 0, addrType := 0, base := .reg 6 0, index := none, shift := 0, off := 64, bcast := 4, home := false }]
+def extraL : ExtraReg := { type := 16, group := rgMask, id := 1 }
+
+example : x86FormatInstruction 0 envL 9 (ioLock ||| ioZMask) extraL opsL =
+    "lock add zmm0 {k1}{z}, zmm1, dword ptr [rax+64] {1to16}".toList := by decide +kernel
+example : (parseX86Inst envL (x86FormatInstruction 0 envL 9 (ioLock ||| ioZMask) extraL opsL)).map (fun p => (p.prefixes, p.ops.length, p.ops.map (·.bcast))) =
+    some (["lock"], 3, [0, 0, 16]) := by decide +kernel
+
+theorem memL_wf (flags : Nat) : WFX86Mem flags envL { size := 4, seg := 0, addrType := 0, base := .reg 6 0, index := none, shift := 0, off := 64, bcast := 4, home := false } where
+  size := Or.inr ⟨("dword", 4), by decide, rfl⟩
+  seg := by decide
+  addr := by decide
+  shift := by decide
+  base := x86_phys_regOK _ envL (by decide) 6 0 "rax".toList (by decide +kernel)
+  index := trivial
+
+/-- the example line is well-formed: the theorem applies to it (for every flag combination) -/
+theorem lineL_wf (flags : Nat) : WFLine flags envL 9 (ioLock ||| ioZMask) extraL opsL (.phys 16 1) (.phys 16 1) where
+  idpos := by decide
+  idlt := by decide +kernel
+  nonone := by decide
+  opok := by
+    intro o ho
+    simp only [opsL, List.mem_cons, List.not_mem_nil, or_false] at ho
+    rcases ho with e | e | e
+    · subst e; exact reg_opOK flags envL 13 0 (x86_phys_regOK flags envL (by decide) 13 0 "zmm0".toList (by decide +kernel))
+    · subst e; exact reg_opOK flags envL 13 1 (x86_phys_regOK flags envL (by decide) 13 1 "zmm1".toList (by decide +kernel))
+    · subst e; exact mem_opOK flags envL _ (memL_wf flags)
+  bcast := by decide
+  mask := fun _ => by
+    have hK : maskText flags envL extraL = "k1".toList := by
+      have := (x86_phys_regOK flags envL (by decide) 16 1 "k1".toList (by decide +kernel))
+      simp only [maskText, extraL, x86FormatRegister, virtLookup_small envL 1 (by decide)]
+      decide +kernel
+    rw [hK]
+    exact ⟨nameLike_of_B _ (by decide), by decide +kernel, by decide, by decide⟩
+  rep := fun _ => by
+    have hW : repWord flags envL extraL = "{k1}".toList := by
+      simp only [repWord, extraL, x86FormatOperand, x86FormatRegister, virtLookup_small envL 1 (by decide)]
+      decide +kernel
+    rw [hW]
+    exact ⟨by decide, by decide, by decide +kernel⟩
+  noround := by decide
+
+example (flags : Nat) := x86_line_parse_back flags envL 9 (ioLock ||| ioZMask) extraL opsL _ _ (lineL_wf flags)
+
+/-! non-vacuity of the parts -/
 
 example : expectedPrefixes (ioLock ||| ioXAcquire ||| ioEvex) = ["{evex}", "xacquire", "lock"] := by decide
 example : kzText (.kz "k1".toList) ++ bcText 4 = " {k1}{z} {1to16}".toList := by decide
